@@ -697,6 +697,72 @@ def check_r6(facts, rep, crate):
     rep.floor(rid, "cumulative walk-counter updates", n, 2)
 
 
+def check_r7(facts, rep, crate):
+    """In-place consumption of a chunk (Buf::advance on LongChain): amount pairing and removal of the exhausted chunk."""
+    rid = "C20.R7"
+    rep.rule(rid, "advancing inside a chain: the cached length is reduced by exactly the amount passed to the chunk's own advance, and "
+                  "the chunk is removed as soon as (and only guarded by) its remaining() == 0, so no empty chunk stays at the front")
+    n = 0
+    for b in crate.bodies:
+        if "LongChain" not in b.path or "::tests::" in b.path:
+            continue
+        tr = Tracer(facts, b)
+        adv = [(bi, t) for bi, t in b.calls() if callee(t) and callee(t)["name"] == "advance" and "CowBytes" in callee(t)["path"]
+               and "LongChain" not in callee(t)["path"]]
+        if not adv:
+            continue
+        rep.analysed(b)
+        for abi, at in adv:
+            n += 1
+            where = "%s (%s)" % (loc_str(at["loc"]), b.path)
+            amt = strip(tr.operand(at["args"][1]))
+            # (a) cached length delta == the amount advanced
+            deltas = []
+            for ob, obi, si, st, _d, how in stores(crate):
+                if ob is b and how == "assign" and st["rv"]["k"] in ("BinaryOp", "CheckedBinaryOp"):
+                    v = strip(tr.rvalue(st["rv"]))
+                    if v.kind == "bin":
+                        deltas.append((v[1], strip(v[3])))
+            okd = [x for x in deltas if x[0].startswith("Sub") and x[1] == amt]
+            if okd and len(okd) == len(deltas):
+                rep.ok(rid, "%s/length-delta" % b.path, where, "total_remaining_len -= (amount passed to the chunk's advance)")
+            else:
+                rep.bad(rid, "%s/length-delta" % b.path, where,
+                        "the cached length is not reduced by the amount actually advanced in the chunk (`%s`; deltas %s): len()/remaining() "
+                        "disagree with the bytes left after a partial advance" % (fmt(amt)[:60], [(o, fmt(d)[:30]) for o, d in deltas]))
+            # (b) removal of the exhausted chunk
+            rem = [bi for bi, t in b.calls() if callee(t) and callee(t)["name"] in ("remove", "pop", "swap_remove", "drain")
+                   and "Vec" in callee(t)["path"] and bi in b.reachable_from(b.term(abi)["t"], cut={abi})]
+            if not rem:
+                rep.bad(rid, "%s/exhausted-chunk-removed" % b.path, where, "an exhausted chunk is never removed after advancing it (empty chunk stays in the chain)")
+                continue
+            r = rem[0]
+            between = [x for x in b.reachable_from(b.term(abi)["t"], cut={r, abi}) if r in b.reachable_from(x, cut={abi}) and b.term(x)["k"] == "SwitchInt"]
+            bad = None
+            for x in between:
+                g = guard_at(facts, b, tr, x)
+                pn = strip_casts_local(g.pred) if g is not None else None
+                okg = False
+                if g is not None and g.kind == "bool" and pn is not None:
+                    calls = [y for y in walk(pn) if y.kind == "call" and y[6] in ("remaining", "len", "is_empty", "has_remaining")]
+                    others = [y for y in walk(pn) if y.kind in ("param", "cycle") and y.kind == "param" and y[2] not in ("self",)]
+                    okg = bool(calls) and not others
+                if not okg:
+                    bad = x
+            if bad is None and between:
+                rep.ok(rid, "%s/exhausted-chunk-removed" % b.path, where, "remove guarded only by the chunk's own remaining() == 0")
+            else:
+                rep.bad(rid, "%s/exhausted-chunk-removed" % b.path, "%s (%s)" % (loc_str(b.term(bad if bad is not None else r)["loc"]), b.path),
+                        "the removal of the chunk just advanced depends on something other than that chunk being exhausted: an empty chunk can "
+                        "stay at the front of the chain (chunk() returns an empty slice while bytes remain)")
+    rep.floor(rid, "in-place chunk advances", n, 1)
+
+
+def strip_casts_local(n):
+    from an import strip_casts
+    return strip_casts(n)
+
+
 def check(facts, rep, tier, cfg):
     crate = facts.crate("cow_bytes")
     if crate is None:
@@ -708,3 +774,4 @@ def check(facts, rep, tier, cfg):
     check_r4(facts, rep, crate)
     check_r5(facts, rep, crate)
     check_r6(facts, rep, crate)
+    check_r7(facts, rep, crate)
